@@ -328,3 +328,53 @@ def count_true(gs: Sequence[G], under: G = TRUE) -> Tuple[int, int]:
     if lo is None:
         return (0, 0)
     return (lo, hi)
+
+
+def _unit_conjuncts(g: "G", depth: int = 0) -> list:
+    """The literal conjuncts of g after unit propagation: a disjunction all but one of whose members contradict the
+    literals found so far contributes the conjuncts of the surviving member."""
+    items = list(g.a) if g.kind == "and" else [g]
+    lits = [x for x in items if x.kind in ("sign", "not", "atom")]
+    pending = [x for x in items if x.kind == "or"]
+    progress = True
+    while pending and progress and depth < 3:
+        progress = False
+        for d in list(pending):
+            ctx = g_and(*lits) if lits else TRUE
+            alive = [m for m in d.a if g_sat(g_and(ctx, m))]
+            if len(alive) == 1:
+                pending.remove(d)
+                lits += [x for x in _unit_conjuncts(alive[0], depth + 1) if all(x.key != y.key for y in lits)]
+                progress = True
+    return lits
+
+
+def equalities_of(g: "G") -> dict:
+    """atom key -> value replacements implied by the equality conjuncts of a path condition (`m == 0`,
+    `y[0] - y[-1] == 0`: solved for a scalar atom that occurs linearly with a numeric coefficient and nowhere else
+    in the equation).  Used to compare a value with its reference *on that path* (anf.replace_atoms)."""
+    from .intervals import linear_in
+    from . import anf
+    out: dict = {}
+    items = _unit_conjuncts(g)
+    for x in items:
+        if x.kind != "sign" or x.b != OPS["=="]:
+            continue
+        try:
+            e = anf.replace_atoms(x.a, out) if out else x.a
+        except ZeroDivisionError:
+            continue
+        if e.den != {(): 1}:
+            e = anf.Rat(dict(e.num))          # a quotient is zero exactly when its numerator is
+        for a in sorted(e.atoms(), key=lambda t: (t.kind != "sym", len(repr(t)))):
+            if a.array or a.skey in out:
+                continue
+            lin = linear_in(e, a)
+            if lin is None or lin[0] == 0:
+                continue
+            coef, rest = lin
+            if any(t.skey == a.skey for t in rest.all_atoms()):
+                continue
+            out[a.skey] = rest.neg().div(anf.Rat.const(coef))
+            break
+    return out
